@@ -9,7 +9,7 @@ Open Scope Z_scope.
 Definition ecode_eqb a b :=
   match a, b with
   | EUser x, EUser y => x =? y
-  | EFault, EFault | ETxDone, ETxDone | EInvalidTx, EInvalidTx | ENoSp, ENoSp | EOther, EOther => true
+  | EFault, EFault | ETxDone, ETxDone | EInvalidTx, EInvalidTx | ENoSp, ENoSp | EUnsupported, EUnsupported | EOther, EOther => true
   | _, _ => false
   end.
 Definition err_eqb a b := ecode_eqb (e_code a) (e_code b) && Bool.eqb (e_wrapped a) (e_wrapped b).
@@ -150,6 +150,14 @@ Definition errs_explained (errs : list cls) (k : opkind) (ops : list (opkind * b
 Definition usable (top : obs) (ops : list (opkind * bool)) : bool :=
   errs_explained (stmt_errs top) KStmt ops && errs_explained (save_errs top) KSave ops.
 
+(* with a dialector that has no save points a SavePoint / RollbackTo call reports exactly
+   ErrUnsupportedDriver (that is not a failure of the enclosing transaction) *)
+Definition usable_cfg (nosp : bool) (top : obs) (ops : list (opkind * bool)) : bool :=
+  if nosp then
+    errs_explained (stmt_errs top) KStmt ops
+    && forallb (fun e => cls_eqb e (CErr (mkErr EUnsupported false))) (save_errs top ++ rb_errs top)
+  else usable top ops.
+
 (* outside the atomicity statement: the database refused the ROLLBACK TO of a failing block
    (a faulted ROLLBACK TO that no RollbackTo call of the program reported) *)
 Definition rb_refused (top : obs) (ops : list (opkind * bool)) : bool :=
@@ -160,6 +168,6 @@ Definition spec_holds (c : case) : bool :=
   && (rb_refused (o_top c) (o_ops c)
       || (same_set (o_table c) (spec_final (negb (c_nonest (c_cfg c))) (o_top c) (o_ops c) [])
           && top_ok (o_top c) (o_ops c)
-          && usable (o_top c) (o_ops c))).
+          && usable_cfg (c_nosp (c_cfg c)) (o_top c) (o_ops c))).
 
 Definition check_case (c : case) : N := code_of (model_agrees c) (spec_holds c).
